@@ -45,8 +45,8 @@ theorem fst_loop (ax : Option Axis) (l : List Nat) :
 
 /-- **yields**: entered with `context.axis is None`, every iterator yields exactly `iterAxis` -/
 theorem prog_yields (ax : Axis) (c : Ctx) (hc : c.axis = none) :
-    (exec (prog m a ax c) c).1.map (·.1) = iterAxis m a ax c.item := by
-  cases ax <;> simp only [prog, iterAxis]
+    (exec (prog m a ax c) c).1.map (·.1) = helperAxis m a ax c.item := by
+  cases ax <;> simp only [prog, iterAxis, helperAxis]
   · simp [exec, iterSelf]
   · -- child
     simp only [hc, Option.isSome_none, Bool.false_eq_true, if_false, iterChildren]
@@ -98,11 +98,13 @@ theorem prog_yields (ax : Axis) (c : Ctx) (hc : c.axis = none) :
       · rw [exec_loop_restore, fst_loop]
       · simp [exec]
   · -- namespace
-    rw [exec_loop_only]; exact fst_loop _ _
+    rw [exec_loop_tail c.axis [.setItem c.item] _ c rfl]
+    simp only [exec, List.append_nil]
+    exact fst_loop _ _
 
 /-- **restore on normal exhaustion**: every context iterator leaves `context.item` and
-`context.axis` exactly as it found them — except the namespace axis, which has no restore. -/
-theorem prog_restores (ax : Axis) (c : Ctx) (hns : ax ≠ .namespace) :
+`context.axis` exactly as it found them — all thirteen. -/
+theorem prog_restores (ax : Axis) (c : Ctx) :
     (exec (prog m a ax c) c).2 = c := by
   cases ax <;> simp only [prog]
   · simp [exec]
@@ -141,12 +143,9 @@ theorem prog_restores (ax : Axis) (c : Ctx) (hns : ax ≠ .namespace) :
     · split
       · rw [exec_loop_restore]
       · simp [exec]
-  · exact absurd rfl hns
-
-/-- the namespace axis leaves `context.item` on the last namespace node it yielded -/
-theorem namespace_not_restored (c : Ctx) :
-    (exec (prog m a .namespace c) c).2 = ⟨((iterNamespaces a c.item).getLast?).getD c.item, c.axis⟩ := by
-  simp only [prog]; rw [exec_loop_only]
+  · -- namespace: `finally: context.item = elem`
+    rw [exec_loop_tail c.axis [.setItem c.item] _ c rfl]
+    simp [exec]
 
 /-- `//`'s `context.iter_descendants()` restores too -/
 theorem progDslash_restores (c : Ctx) : (exec (progDslash m a c) c).2 = c := by
@@ -172,8 +171,8 @@ theorem prog_trace (ax : Axis) (c : Ctx) (hc : c.axis = none) (hns : ax ≠ .nam
     (exec (prog m a ax c) c).1 =
       if ax = .child ∧ isED a c.item = true ∧ isDummyDoc m c.item = true then
         [(rootIdx m, (⟨c.item, some .child⟩ : Ctx))]
-      else (iterAxis m a ax c.item).map fun x => (x, (⟨x, some ax⟩ : Ctx)) := by
-  cases ax <;> simp only [prog, iterAxis, reduceCtorEq, false_and, if_false, true_and]
+      else (helperAxis m a ax c.item).map fun x => (x, (⟨x, some ax⟩ : Ctx)) := by
+  cases ax <;> simp only [prog, iterAxis, helperAxis, reduceCtorEq, false_and, if_false, true_and]
   · simp [exec, iterSelf]
   · -- child
     simp only [hc, Option.isSome_none, Bool.false_eq_true, if_false, iterChildren]
@@ -235,61 +234,131 @@ theorem flatMap_test (t : Test) (ax : Axis) : ∀ (l : List Nat),
     simp only [testAtYield]
     split <;> simp
 
-/-- every test fails on the dummy document, as the element-axis principal kind sees it -/
-theorem matchTest_dummy (t : Test) {n : Nat} (hv : isDummyDoc m n = true) (hk : kd a n = .doc) :
-    matchTest m a .elem t n = false := by
-  cases t with
-  | pi tg => cases tg <;> simp [matchTest, hk]
-  | node => simp [matchTest, hv]
-  | _ => simp [matchTest, hk]
+theorem exec_append : ∀ (p1 p2 : List Instr) (c : Ctx),
+    exec (p1 ++ p2) c = ((exec p1 c).1 ++ (exec p2 (exec p1 c).2).1, (exec p2 (exec p1 c).2).2)
+  | [], p2, c => by simp [exec]
+  | i :: is, p2, c => by
+    cases i <;> simp only [List.cons_append, exec, exec_append is p2, List.cons_append]
 
-/-- **the step abstraction is derived, not postulated**: running the generator of the axis and, at
-every yield, the node test on the context *state* gives exactly `evalStep … (abbr := false)` of
-`EPV/Model/Paths.lean` — including its first branch (finding F01i), which here *results* from
-`iter_children_or_self` not moving `context.item`. -/
-theorem evalStepState_eq (ax : Axis) (t : Test) (c : Ctx) (hc : c.axis = none)
+/-- the helper `iter_followings` from a context whose axis is already set -/
+theorem exec_prog_following (p : Nat) (ax0 : Option Axis) :
+    exec (prog m a .following ⟨p, ax0⟩) ⟨p, ax0⟩ =
+      ((iterFollowings m a p).map fun x => (x, (⟨x, some .following⟩ : Ctx)), ⟨p, ax0⟩) := by
+  simp only [prog]
+  split
+  · rename_i h; simp [exec, iterFollowings, h]
+  · rw [exec_loop_restore]
+
+theorem exec_following_AN (c : Ctx) (p : Nat) :
+    exec ([.setAxis (some .following)] ++ loopItems (descRange a p) ++
+        ([.setItem p] ++ prog m a .following ⟨p, some .following⟩ ++ [.restore c])) c =
+      ((descRange a p ++ iterFollowings m a p).map fun x => (x, (⟨x, some .following⟩ : Ctx)), c) := by
+  simp only [List.cons_append, List.nil_append, exec]
+  rw [exec_loop_tail (some .following) _ (descRange a p) { c with axis := some .following } rfl]
+  simp only [exec]
+  rw [exec_append, exec_prog_following]
+  simp [exec, List.map_append]
+
+/-- **trace of the axis methods**: at every yield `context.axis` is the axis name and `context.item`
+the yielded node — for all axes except `namespace` (which sets no axis), without exception -/
+theorem axisProg_trace (ax : Axis) (c : Ctx) (hc : c.axis = none) (hns : ax ≠ .namespace)
     (hV : isDummyDoc m c.item = true → kd a c.item = .doc) :
-    evalStepState m a ax t c = evalStep m a ax t false c.item := by
-  unfold evalStepState evalStep explicitChildAtDummy
+    (exec (axisProg m a ax c) c).1 = (iterAxis m a ax c.item).map fun x => (x, (⟨x, some ax⟩ : Ctx)) := by
+  by_cases hat : ax = .attribute
+  · subst hat
+    simp only [axisProg, iterAxis, attributeAxis]
+    split
+    · simp [exec]
+    · have := prog_trace (m := m) (a := a) .attribute c hc (by simp)
+      simpa [helperAxis] using this
+  · by_cases hfo : ax = .following
+    · subst hfo
+      simp only [axisProg, iterAxis, followingAxis]
+      split
+      · cases hp : par a c.item with
+        | none => simp [exec]
+        | some p => simp only; rw [exec_following_AN]
+      · have := prog_trace (m := m) (a := a) .following c hc (by simp)
+        simpa [helperAxis] using this
+    · by_cases hch : ax = .child
+      · subst hch
+        simp only [axisProg, hc, Option.isNone_none, Bool.true_and]
+        cases hv : isDummyDoc m c.item with
+        | true =>
+          have hed : isED a c.item = true := by simp [isED, hV hv]
+          simp [exec, iterAxis, iterChildren, hed, hv]
+        | false =>
+          have := prog_trace (m := m) (a := a) .child c hc (by simp)
+          simp only [Bool.false_eq_true, if_false]
+          simpa [helperAxis, hv] using this
+      · have := prog_trace (m := m) (a := a) ax c hc hns
+        cases ax <;> simp_all [axisProg, helperAxis]
+
+/-- the axis methods restore (item, axis) too -/
+theorem axisProg_restores (ax : Axis) (c : Ctx) (hc : c.axis = none) :
+    (exec (axisProg m a ax c) c).2 = c := by
+  by_cases hat : ax = .attribute
+  · subst hat
+    simp only [axisProg]
+    split
+    · simp [exec]
+    · exact prog_restores .attribute c
+  · by_cases hfo : ax = .following
+    · subst hfo
+      simp only [axisProg]
+      split
+      · cases hp : par a c.item with
+        | none => simp [exec]
+        | some p => simp only; rw [exec_following_AN]
+      · exact prog_restores .following c
+    · by_cases hch : ax = .child
+      · subst hch
+        simp only [axisProg, hc, Option.isNone_none, Bool.true_and]
+        split
+        · cases c; simp only at hc; subst hc; simp [exec]
+        · exact prog_restores .child c
+      · have := prog_restores (m := m) (a := a) ax c
+        cases ax <;> simp_all [axisProg]
+
+theorem axisProg_namespace (c : Ctx) : axisProg m a .namespace c = prog m a .namespace c := rfl
+
+/-- **the step abstraction is derived, not postulated**: running the axis method and, at every yield,
+the node test on the context *state* gives exactly `evalStep` of `EPV/Model/Paths.lean`. -/
+theorem evalStepState_eq (ax : Axis) (t : Test) (ab : Bool) (c : Ctx) (hc : c.axis = none)
+    (hV : isDummyDoc m c.item = true → kd a c.item = .doc) :
+    evalStepState m a ax t c = evalStep m a ax t ab c.item := by
+  unfold evalStepState evalStep
   by_cases hns : ax = .namespace
   · subst hns
-    simp only [beq_self_eq_true, if_true, prog_yields .namespace c hc, principal]
-    simp
+    simp only [beq_self_eq_true, if_true, axisProg_namespace, prog_yields .namespace c hc, principal, helperAxis]
   · have hb : (ax == Axis.namespace) = false := by simpa using hns
-    rw [hb, prog_trace ax c hc hns]
-    simp only [Bool.false_eq_true, if_false, Bool.not_false, Bool.true_and]
-    by_cases hch : ax = .child
-    · subst hch
-      cases hv : isDummyDoc m c.item with
-      | true =>
-        have hk := hV hv
-        have hed : isED a c.item = true := by simp [isED, hk]
-        simp [hed, testAtYield, principal, matchTest_dummy t hv hk]
-      | false =>
-        simp only [Bool.false_eq_true, and_false, if_false, beq_self_eq_true, Bool.true_and]
-        exact flatMap_test t .child _
-    · have hb2 : (ax == Axis.child) = false := by simpa using hch
-      simp only [hch, false_and, if_false, hb2, Bool.false_and, Bool.false_eq_true]
-      exact flatMap_test t ax _
+    rw [hb, axisProg_trace ax c hc hns hV]
+    simp only [Bool.false_eq_true, if_false]
+    exact flatMap_test t ax _
 
-/-- an abbreviated step tests the yielded values: `evalStep … (abbr := true)` on the child axis -/
+/-- an abbreviated step tests the yielded values of `iter_children_or_self` / `iter_matching_nodes` -/
 theorem evalAbbrevState_eq (t : Test) (c : Ctx) (hc : c.axis = none) :
     evalAbbrevState m a t c = evalStep m a .child t true c.item := by
-  unfold evalAbbrevState evalStep explicitChildAtDummy
+  unfold evalAbbrevState evalStep
   rw [prog_yields .child c hc]
-  simp [principal]
+  simp [principal, helperAxis]
 
 /-! ### early close -/
 
-/-- Closing a loop iterator after its k-th yield leaves the context on the k-th yielded node with the
-iterator's axis: **not restored** (the generators have no `try/finally`). -/
+/-- Closing a loop iterator after its k-th yield runs its `finally:` clause: the saved status is written
+back, exactly as after exhaustion (fix 8377c57; before, the context stayed on the k-th yielded node). -/
 theorem closeAfter_loop (ax : Option Axis) (l : List Nat) (c s : Ctx) (k : Nat) (hk : 0 < k) (hl : k ≤ l.length) :
-    closeAfter k ([.setAxis ax] ++ loopItems l ++ [.restore s]) c = some ⟨l[k - 1]'(by omega), ax⟩ := by
+    closeAfter k ([.setAxis ax] ++ loopItems l ++ [.restore s]) c = some s := by
   unfold closeAfter
-  rw [exec_loop_restore]
+  have hfin : finalizer ([.setAxis ax] ++ loopItems l ++ [.restore s]) = [.restore s] := by
+    unfold finalizer
+    have : ([Instr.setAxis ax] ++ loopItems l ++ [Instr.restore s]).getLast? = some (.restore s) := by
+      rw [List.getLast?_append]; simp
+    rw [this]
+  rw [hfin, exec_loop_restore]
   simp only [List.getElem?_map]
   rw [List.getElem?_eq_getElem (by omega)]
-  rfl
+  simp [exec]
 
 /-! ### operands of `and` / `or` -/
 
